@@ -267,7 +267,7 @@ func NewEngine(repo string) (*Engine, error) {
 		return nil, &vnode.BuildError{Msg: "copy repo: " + err.Error()}
 	}
 	e.Goverter = filepath.Join(scratch, "goverter-bin")
-	if out, err := goRun(src, nil, "go", "build", "-o", e.Goverter, "./cmd/goverter"); err != nil {
+	if out, err := goRun(src, nil, "go", "build", "-trimpath", "-o", e.Goverter, "./cmd/goverter"); err != nil {
 		e.Close()
 		return nil, &vnode.BuildError{Msg: "build goverter: " + out}
 	}
@@ -335,7 +335,7 @@ func (e *Engine) buildWorldFiles(s *Spec, prop string, files map[string]string, 
 		res.RejectMsg = "generated code does not load: " + err.Error()
 		return res, nil
 	}
-	if out, err := goRun(dir, nil, "go", "test", "-c", "-o", filepath.Join(dir, "sim.test"), "./run"); err != nil {
+	if out, err := goRun(dir, nil, "go", "test", "-trimpath", "-c", "-o", filepath.Join(dir, "sim.test"), "./run"); err != nil {
 		res.Rejected = true
 		res.RejectMsg = "harness build failed: " + out
 		res.BuildErr = fmt.Errorf("%s", out)
@@ -1023,7 +1023,7 @@ func mergeStats(a, b map[string]any) map[string]any {
 // raceAux builds the world's harness with -race and runs TestRace (auxiliary, thorough tier).
 func (e *Engine) raceAux(r *worldResult) error {
 	bin := filepath.Join(r.Dir, "race.test")
-	if out, err := goRun(r.Dir, nil, "go", "test", "-race", "-c", "-o", bin, "./run"); err != nil {
+	if out, err := goRun(r.Dir, nil, "go", "test", "-trimpath", "-race", "-c", "-o", bin, "./run"); err != nil {
 		// the race detector may be unusable in a sandbox; that is not a violation
 		_ = out
 		return nil
